@@ -122,7 +122,7 @@ def run(prop, tier, seed):
         if gap:
             print('COVERAGE-GAP property=C11 link-state TLV types registered by yabgp but unknown to spec/WireTlv.tla: %s' % gap)
         jobs = []
-        grids = {f: gen(f, 1) for f in ('capgrid', 'attrgrid', 'mpgrid', 'nestgrid', 'fslen', 'lsnlri')}
+        grids = {f: gen(f, 1) for f in ('capgrid', 'attrgrid', 'mpgrid', 'nestgrid', 'fslen', 'lsnlri', 'deepgrid')}
         for ep, hx in ls['vecs'] + sid['vecs']:
             jobs.append((ep, hx, 'tlvgrid'))
         for f, g in grids.items():
